@@ -1,8 +1,9 @@
-(* C18 -- the ConstantSpectrum branch of LaserSpectrum._update_cache with every IEEE double
+(* C18 -- the ConstantSpectrum branch of LaserSpectrum._update_cache AS IT WAS BEFORE fix 879f8f0
+   (bin value = trapezoid of evaluate() at the bin edges) with every IEEE double
    operation written out ([rnd] after each arithmetic operation).  Definitions only.
    With [rnd] = identity this is the exact model of Model/C18_Spectrum.v; with [rnd] = [round53]
    (round to nearest even, 53 significant bits, normal range) it is what the compiled code computes.
-   Used for the record of the known finding (Proofs/C18_Float.v). *)
+   Used only for the record of the fixed finding (Proofs/C18_Float.v). *)
 Require Import Cherab.Common.Qx.
 From Coq Require Import Qround Qabs.
 Open Scope Q_scope.
